@@ -1,8 +1,9 @@
 (* C11 -- only the documented extent of caller buffers is read or written.
    Property theorems only: statement + exact + Print Assumptions. *)
 From Coq Require Import List ZArith Bool.
-From LJT Require Import model.Extent model.ExtentApi model.ExtentTmp gen.GenAlign gen.GenTail
-  proofs.ExtentProofs proofs.ExtentYuvProofs proofs.ExtentApiProofs proofs.ExtentTmpProofs proofs.ExtentExamples.
+From LJT Require Import model.Extent model.ExtentApi model.ExtentTmp model.ExtentRows gen.GenAlign gen.GenTail
+  proofs.ExtentProofs proofs.ExtentYuvProofs proofs.ExtentApiProofs proofs.ExtentTmpProofs proofs.ExtentRowsProofs
+  proofs.ExtentExamples.
 Import ListNotations.
 Local Open Scope Z_scope.
 
@@ -117,6 +118,34 @@ Theorem C11_tmpbuf_copyout_current :
   if tmp_rows_cover_pw then copyout_inside true else copyout_overreads false.
 Proof. exact tmpbuf_copyout_current. Qed.
 Print Assumptions C11_tmpbuf_copyout_current.
+
+(* rows: one jpeg_read_scanlines(scanlines, max_lines) call, whatever upsampler invocations the main
+   controller makes in it, writes only scanlines[0 .. max_lines-1] and returns <= max_lines, the clamp
+   of sep_upsample / merged_2v_upsample being "out_rows_avail -= *out_row_ctr" (pinned by gen_Align) *)
+Theorem C11_read_scanlines_rows_within : forall invs max_lines, invs_ok invs -> 0 <= max_lines ->
+  let '(rows, n) := read_scanlines true invs max_lines in
+  (forall r, In r rows -> 0 <= r < max_lines) /\ 0 <= n <= max_lines.
+Proof. exact read_scanlines_within. Qed.
+Print Assumptions C11_read_scanlines_rows_within.
+
+(* hence the (cropping) loop of tj3Decompress8/12/16 stores only through row_pointer[0 .. h-1] *)
+Theorem C11_crop_loop_rows_within : forall calls, (forall invs, In invs calls -> invs_ok invs) ->
+  forall scan y h, 0 <= y <= scan -> forall r, In r (crop_loop true calls scan y h) -> 0 <= r < h.
+Proof. exact crop_loop_within. Qed.
+Print Assumptions C11_crop_loop_rows_within.
+
+(* without the subtraction the second invocation of a call overruns: 3 rows requested, row 3 written *)
+Theorem C11_folded_clamp_refuted :
+  exists invs max_lines, invs_ok invs /\ 0 <= max_lines /\
+    In max_lines (fst (read_scanlines false invs max_lines)) /\ max_lines < snd (read_scanlines false invs max_lines).
+Proof. exact folded_clamp_overruns. Qed.
+Print Assumptions C11_folded_clamp_refuted.
+
+Example C11_ex_rows :
+  read_scanlines true [(2, 50); (2, 48)] 3 = ([0; 1; 2], 3) /\
+  read_scanlines false [(2, 50); (2, 48)] 3 = ([0; 1; 2; 3], 4) /\
+  crop_loop true [[(2, 9); (2, 7)]; [(1, 6); (2, 5)]] 14 14 5 = [0; 1; 2; 3; 4].
+Proof. exact ex_rows. Qed.
 
 (* (5) The property itself is extent_respected applied to the accesses the COMPILED LIBRARY
    performs on caller memory (machine loads and stores).  That function is not an object
